@@ -266,19 +266,43 @@ def verdict_defs(body, depth=0):
     return out
 
 
+_view_cache = {}
+
+
+def work_view(facts, body, methods=False):
+    """the body with the crate-local helpers that move stream data substituted in (inline.py): `let Some(x) = take_u32(i) else
+    { return wait }` consumes in the helper and decides in the caller - one path question, answered on one body.  With
+    methods=True also the block's own (pure) methods: `match self.consumable(input.len()) { Ok(n) => n, Err(m) => return ..}`.
+    The same body when there is nothing to inline."""
+    k = (id(facts), body.path, methods)
+    if k in _view_cache:
+        return _view_cache[k]
+    from . import inline
+    cg, eff_fns, interior = _cg(facts)
+    nb, inl = inline.inline_body(facts, body, lambda hb: hb.kind != "closure" and (
+        hb.q in eff_fns or (methods and body.self_adt and hb.self_adt == body.self_adt and hb.kind != "traitimpl")))
+    if inl:
+        _FACTS_FOR_VERDICTS[id(nb)] = facts
+    _view_cache[k] = nb
+    return nb
+
+
 def settled_after_effect(facts, body):
     """{verdict: info} for settled verdicts of this body: is there a CFG path
     entry -> possibly-effective stream effect -> return of that verdict ?"""
+    body = work_view(facts, body)
     eff = Effects(facts, body)
     res = {}
     after = set()   # blocks reachable after a stream effect
     desc = {}
+    from .common import flag_search
     for pt, d in eff.stream_points.items():
         if isinstance(pt, tuple):
             starts = [pt[2]]
         else:
             starts = body.succ[pt]
-        r = body.reachable(starts)
+        # feasible for the Option/Result/enum values known on the way (a helper's `None` result means "nothing consumed")
+        r, _ = flag_search(body, list(starts), track_bools=False)
         for b in r:
             if b not in after:
                 after.add(b)
